@@ -167,6 +167,25 @@ let model_step (e : ecfg) (v : vec) (l : line) : mres option =
     (match extend_iter e v (n_of_z (Z.of_int n)) clones with
      | Ret v' -> keep { m_res = "unit"; m_vec = v'; m_drops = []; m_exact_drops = true }
      | Panic _ -> keep { m_res = "panic"; m_vec = v; m_drops = []; m_exact_drops = false })
+  | ["extend_from_slice"; xs; k] ->
+    (* Clone panics at its k-th call: the k-1 clones made before it were pushed *)
+    let n = List.length (ids_of xs) in
+    let kk = int_of_string k in
+    let m = if kk <= n then kk - 1 else n in
+    let clones = List.init m (fun i -> N.add l.next (n_of_z (Z.of_int i))) in
+    (match extend_iter e v (n_of_z (Z.of_int n)) clones with
+     | Ret v' -> keep { m_res = (if kk <= n then "panic" else "unit"); m_vec = v'; m_drops = []; m_exact_drops = (kk > n) }
+     | Panic _ -> keep { m_res = "panic"; m_vec = v; m_drops = []; m_exact_drops = false })
+  | ["extend"; xs; h; p] when p <> "-" ->
+    (* the iterator panics at call number p (0-based): the p items yielded before were pushed;
+       the items never yielded are the iterator's to drop *)
+    let items = ids_of xs in
+    let n = List.length items in
+    let pp = int_of_string p in
+    let yielded = List.filteri (fun i _ -> i < pp) items in
+    (match extend_iter e v (n_of_string h) yielded with
+     | Ret v' -> keep { m_res = (if pp <= n then "panic" else "unit"); m_vec = v'; m_drops = []; m_exact_drops = false }
+     | Panic _ -> keep { m_res = "panic"; m_vec = v; m_drops = []; m_exact_drops = false })
   | ["extend"; xs; h; p] when p = "-" ->
     (match extend_iter e v (n_of_string h) (ids_of xs) with
      | Ret v' -> keep { m_res = "unit"; m_vec = v'; m_drops = []; m_exact_drops = true }
